@@ -25,9 +25,42 @@ pub fn collect_ids(lib: &Library) -> Vec<(String, usize, usize, String)> {
 }
 
 /// First differing line of the pretty Debug renderings, with context.
+/// pretty Debug rendering without SourceSpan blocks (spans never take part in equality)
+pub fn debug_nospan<T: std::fmt::Debug>(v: &T, lower: bool) -> String {
+    let s = format!("{:#?}", v);
+    let mut out = String::new();
+    let mut skip_indent: Option<usize> = None;
+    for l in s.lines() {
+        let indent = l.len() - l.trim_start().len();
+        if let Some(si) = skip_indent {
+            if indent == si && l.trim_start().starts_with('}') {
+                skip_indent = None;
+            }
+            continue;
+        }
+        if l.trim_end().ends_with("SourceSpan {") {
+            skip_indent = Some(indent);
+            continue;
+        }
+        if lower {
+            out.push_str(&l.to_lowercase());
+        } else {
+            out.push_str(l);
+        }
+        out.push('\n');
+    }
+    out
+}
+
 pub fn debug_diff<T: std::fmt::Debug>(expected: &T, actual: &T) -> String {
-    let e = format!("{:#?}", expected);
-    let a = format!("{:#?}", actual);
+    debug_diff_opt(expected, actual, false)
+}
+pub fn debug_diff_ci<T: std::fmt::Debug>(expected: &T, actual: &T) -> String {
+    debug_diff_opt(expected, actual, true)
+}
+fn debug_diff_opt<T: std::fmt::Debug>(expected: &T, actual: &T, lower: bool) -> String {
+    let e = debug_nospan(expected, lower);
+    let a = debug_nospan(actual, lower);
     let el: Vec<&str> = e.lines().collect();
     let al: Vec<&str> = a.lines().collect();
     let mut i = 0;
